@@ -1836,3 +1836,4 @@ class Path:
         self.unknown_branch = False
         self.nondet = []   # (fn, name, value-term) in call order
         self.events = []
+        self.reached = []
